@@ -15,10 +15,9 @@ def sequencing_runs(tier, seed, tail):
     rnd = random.Random(seed * 7717 + 16)
     n = 150 if tier == 'quick' else 3000
     scs = [sk.gen_start_scenario(rnd, drops=True) for _ in range(n)] + [sk.gen_stop_scenario(rnd) for _ in range(n // 2)]
-    traces = sk.run_scenarios(scs)
     v = vlib.Verdict('C16', tier, seed)
-    allv = sk.judge(v, traces, scs, ['C16.NoInternalError'], [], tag='seq16')
-    SEQ_RESULTS.append((v, len(traces), sum(len(t['steps']) for t in traces)))
+    allv, n_tr, n_st = sk.run_and_judge(v, scs, ['C16.NoInternalError'], [], tag='seq16')
+    SEQ_RESULTS.append((v, n_tr, n_st))
     return []
 
 
@@ -81,7 +80,7 @@ def main(tier, seed, replay=None):
            cl.Config(n=3, crash=2, restart=2, mismatch=(2,), user=1, fail='SHUTDOWN')]
     return cc.run('C16', tier, seed, LABELS, [], e1, ['NoErr'], ['StepsC16'], sim, rnd,
                   n_beh=48 if q else 400, beh_depth=150, n_rnd=50 if q else 500, rnd_steps=300,
-                  e1_timeout=600 if q else 2400, inject=True,
+                  e1_timeout=600 if q else 1500, inject=True,
                   extra_scenarios=[user_sync_scenarios, sequencing_runs, cl.hold_distribution_scenarios],
                   notes=['the object-level partial operations are covered by the other families: every check '
                          'records internal errors of its own runs (C11 err, C17 non-RPCError exceptions, ...)'])
